@@ -121,12 +121,14 @@ func codeObject(cfg regCfg) *insts.KernelCodeObject {
 	co.EnableSgprDispatchID = cfg.dispatchID
 	co.EnableSgprFlatScratchInit = cfg.flatScratch
 	co.EnableSgprPrivateSegmentSize = cfg.privSegSize
-	co.EnableSgprGridWorkgroupCountX = cfg.gridCount
-	co.EnableSgprGridWorkgroupCountY = cfg.gridCount
-	co.EnableSgprGridWorkgroupCountZ = cfg.gridCount
+	co.EnableSgprGridWorkgroupCountX = cfg.gridEnabled(0)
+	co.EnableSgprGridWorkgroupCountY = cfg.gridEnabled(1)
+	co.EnableSgprGridWorkgroupCountZ = cfg.gridEnabled(2)
 	var r2 uint32
-	for i := 0; i < cfg.wgIDs; i++ {
-		r2 |= 1 << (7 + i)
+	for i := 0; i < 3; i++ {
+		if cfg.wgEnabled(i) {
+			r2 |= 1 << (7 + i)
+		}
 	}
 	r2 |= uint32(cfg.vgprIDs) << 11
 	co.ComputePgmRsrc2 = r2
@@ -140,6 +142,46 @@ type regCfg struct {
 	dispatchID, flatScratch, privSegSize, gridCount bool
 	wgIDs                                           int // 1..3 work-group id SGPRs enabled (x, xy, xyz)
 	vgprIDs                                         int // 0..2 (x, xy, xyz)
+	// wgMask != 0: the enabled work-group id SGPRs as a bit set (bit 0 x, 1 y, 2 z) instead of the prefix wgIDs:
+	// the enable bits are independent, the enabled ids are packed into consecutive SGPRs in x, y, z order
+	wgMask int
+	// gridMask != 0: the enabled grid work-group count SGPRs as a bit set instead of all three (gridCount)
+	gridMask int
+}
+
+func (c regCfg) gridEnabled(d int) bool {
+	if c.gridMask != 0 {
+		return c.gridMask>>d&1 == 1
+	}
+	return c.gridCount
+}
+
+func (c regCfg) gridSlot(d int) int {
+	n := 0
+	for i := 0; i < d; i++ {
+		if c.gridEnabled(i) {
+			n++
+		}
+	}
+	return n
+}
+
+func (c regCfg) wgEnabled(d int) bool {
+	if c.wgMask != 0 {
+		return c.wgMask>>d&1 == 1
+	}
+	return d < c.wgIDs
+}
+
+// wgSlot is the position of dimension d's id among the packed work-group id SGPRs.
+func (c regCfg) wgSlot(d int) int {
+	n := 0
+	for i := 0; i < d; i++ {
+		if c.wgEnabled(i) {
+			n++
+		}
+	}
+	return n
 }
 
 var regCfgs = []regCfg{
@@ -151,6 +193,10 @@ var regCfgs = []regCfg{
 	{name: "v3-dispatch-id+flat-scratch", version: insts.CodeObjectV3, kernargPtr: true, dispatchID: true, flatScratch: true, wgIDs: 3, vgprIDs: 2},
 	{name: "v3-queue-ptr", version: insts.CodeObjectV3, dispatchPtr: true, queuePtr: true, kernargPtr: true, wgIDs: 3, vgprIDs: 2},
 	{name: "v3-private-segment-size", version: insts.CodeObjectV3, kernargPtr: true, privSegSize: true, wgIDs: 3, vgprIDs: 2},
+	{name: "v3-grid-count-x+z", version: insts.CodeObjectV3, privSegBuf: true, kernargPtr: true, gridMask: 0b101, wgIDs: 3, vgprIDs: 2},
+	{name: "v3-wg-id-x+z", version: insts.CodeObjectV3, kernargPtr: true, wgMask: 0b101, vgprIDs: 2},
+	{name: "v3-wg-id-y+z", version: insts.CodeObjectV3, dispatchPtr: true, kernargPtr: true, wgMask: 0b110, vgprIDs: 2},
+	{name: "v5-wg-id-x+z", version: insts.CodeObjectV5, kernargPtr: true, wgMask: 0b101, vgprIDs: 2},
 }
 
 // abiLayout is the SGPR set-up order of the AMDGPU kernel ABI (LLVM
@@ -188,9 +234,13 @@ func (c regCfg) abi() abiLayout {
 	if c.privSegSize {
 		p++
 	}
-	if c.gridCount {
+	if c.gridCount || c.gridMask != 0 {
 		l.gridCount = p
-		p += 3
+		for d := 0; d < 3; d++ {
+			if c.gridEnabled(d) {
+				p++
+			}
+		}
 	}
 	l.wgID = p
 	return l
@@ -515,15 +565,23 @@ func checkRegs(mode string, g geom, cfg regCfg, wg *kernels.WorkGroup, wfi int, 
 	nx, ny, nz := g.numWG()
 	if abi.gridCount >= 0 {
 		for d, n := range []int{nx, ny, nz} {
-			if int(r.sreg(abi.gridCount+d)) != n {
-				return pre + "sgpr-grid-workgroup-count", fmt.Sprintf("%s: s%d=%#x, work-group count in dimension %d is %d", where, abi.gridCount+d, r.sreg(abi.gridCount+d), d, n)
+			if !cfg.gridEnabled(d) {
+				continue
+			}
+			at := abi.gridCount + cfg.gridSlot(d)
+			if int(r.sreg(at)) != n {
+				return pre + "sgpr-grid-workgroup-count", fmt.Sprintf("%s: s%d=%#x, work-group count in dimension %d is %d", where, at, r.sreg(at), d, n)
 			}
 		}
 	}
 	ids := [3]int{wg.IDX, wg.IDY, wg.IDZ}
-	for d := 0; d < cfg.wgIDs; d++ {
-		if int(r.sreg(abi.wgID+d)) != ids[d] {
-			return pre + "sgpr-work-group-id-not-at-abi-position", fmt.Sprintf("%s: s%d=%#x, but work-group id %c is %d and the ABI puts it in s%d", where, abi.wgID+d, r.sreg(abi.wgID+d), "xyz"[d], ids[d], abi.wgID+d)
+	for d := 0; d < 3; d++ {
+		if !cfg.wgEnabled(d) {
+			continue
+		}
+		at := abi.wgID + cfg.wgSlot(d)
+		if int(r.sreg(at)) != ids[d] {
+			return pre + "sgpr-work-group-id-not-at-abi-position", fmt.Sprintf("%s: s%d=%#x, but work-group id %c is %d and the ABI puts it in s%d", where, at, r.sreg(at), "xyz"[d], ids[d], at)
 		}
 	}
 	sx, sy, sz := int(g.W[0]), int(g.W[1]), int(g.W[2])
@@ -563,8 +621,8 @@ func checkRegs(mode string, g geom, cfg regCfg, wg *kernels.WorkGroup, wfi int, 
 		lim := [3]int{int(g.G[0]), int(g.G[1]), int(g.G[2])}
 		for d := 0; d < 3; d++ {
 			wgid := ids[d]
-			if d < cfg.wgIDs {
-				wgid = int(r.sreg(abi.wgID + d))
+			if cfg.wgEnabled(d) {
+				wgid = int(r.sreg(abi.wgID + cfg.wgSlot(d)))
 			}
 			lc := want[d]
 			if d < have {
